@@ -99,3 +99,9 @@ for pol, sc in SCOPES.items():
         Part(HI, [sc], '', member_init='m_last_active_state_ids'), 'void hist_construct(hist11_t* self)', 'cascade_mp11.spec.h',
         xform=back_xform([], refparams=(), rewrites=[dict(name='TVAL-init-ids', pat='value_array < InitialStateIds >', rep='g_init_ids16', min=0, max=1)]),
         defines=['POLICY=%d' % pol], replay=['hist']))
+
+UNITS.append(Unit('backmp11.on_exit.per_state', ['C02', 'C03', 'C13'], 'backmp11', Part(SB, [], '[ this , & event ] ( auto & state )'),
+    'void exit_lambda(fsm_t* self, event_t event, stref_t state)', 'cascade_mp11.spec.h', defines=['UNIT_EXIT_LAMBDA=1'],
+    xform=back_xform([], refparams=(), enums=ENUMS, drop=DROP2, rewrites=[
+        dict(name='fsm-argument', pat='get_fsm_argument ( )', rep='self', min=0, max=1),
+        dict(name='member-on_exit', pat='state . on_exit (', rep='substate_on_exit ( state ,', min=0, max=1)]), replay=['order']))
